@@ -28,6 +28,7 @@ SIG_DROP = "C10 wire:unknown-tlv-dropped-on-reencode"
 # (EncodeMessageExtraData / PackRecords): finding C10-F1 is limited to these
 DROP_TYPES = {32, 33, 34, 35, 36, 39, 40, 41, 133, 136, 258, 263, 264, 265}
 
+MAX_SCIDS = 100000          # lnwire.maxDecodedShortChanIDs (zlib decode bound)
 MAX_COQ_BYTES = 6000        # longer inputs are checked by the python predicates only
 U64 = 1 << 64
 
@@ -246,6 +247,9 @@ def pred_msg(r):
     if not r["ok"]:
         return fails, None
     sig = None
+    if r.get("nids", 0) > MAX_SCIDS:
+        fails.append("decoded %d short channel ids from one message (bound %d)"
+                     % (r["nids"], MAX_SCIDS))
     if r.get("enc_err"):
         if not r.get("enc_err_allowed"):
             fails.append("decoded message does not re-encode: %s" % r["enc_err"])
@@ -316,7 +320,7 @@ def run(ctx):
     nviol = collections.Counter()
 
     def report(theorem, r, fails, sig):
-        key = sig or fails[0][:40]
+        key = sig or fails[0].split(":")[0][:40]
         nviol[key] += 1
         if nviol[key] > 2:
             return
